@@ -107,3 +107,8 @@ pub fn bytes_diff<const N: usize>(a: &[u8; N], b: &[u8; N], used: usize) -> (boo
     }
     (any, tail)
 }
+
+/// the two anchors used for shape-geometry checks (translation itself is C07's subject)
+pub fn anchor() -> Point {
+    if flag() { Point::new(0, 0) } else { Point::new(-3, -2) }
+}
